@@ -9,7 +9,7 @@ CONSTANTS
   Modes = {"S", "R"}
   Vers = {"new"}
   Ports <- PortsSmall
-  Shapes = {"none", "short", "s00", "s10", "s20", "d15"}
+  Shapes = {"none", "short", "s00", "s10", "s20", "d15", "p11"}
   TsSet = {1, 2}
   PartKinds = {"inmarker", "marker", "ver2", "badmode", "gover"}
   Markers = {"Saved", "CFG"}
